@@ -41,7 +41,20 @@ func vSetField(msgv reflect.Value, gmn MesgNum, sindex int, choice bool) vSet {
 		return out
 	}
 	switch pf.t.Kind() {
-	case types.TimeUTC, types.TimeLocal:
+	case types.TimeLocal:
+		// a local time: instant x in a fixed zone with an arbitrary offset of
+		// up to +-14 h; the wire carries the wall-clock reading
+		x := uint32(1000000000 + sindex)
+		off := 3600 * (sindex%5 - 2)
+		if choice {
+			x = vU32()
+			vAssume(x >= 100000 && x <= 0xFFFFFFFE-100000)
+			off = vInt(-14*3600, 14*3600)
+		}
+		fv.Set(reflect.ValueOf(decodeDateTime(x).In(time.FixedZone("VZ", off))))
+		out.elems = []uint64{uint64(uint32(int64(x) + int64(off)))}
+		return out
+	case types.TimeUTC:
 		x := uint32(1000000000 + sindex) // all-fields mode: a fixed time (each time field is symbolic in its own instance)
 		if choice {
 			x = vU32()
@@ -51,20 +64,31 @@ func vSetField(msgv reflect.Value, gmn MesgNum, sindex int, choice bool) vSet {
 		out.elems = []uint64{uint64(x)}
 		return out
 	case types.Lat:
-		s := vI32()
-		vAssume(s >= -(1<<30) && s <= (1<<30)-1)
+		s := int32(1000 + sindex)
+		if choice {
+			s = vI32()
+			vAssume(s >= -(1<<30) && s <= (1<<30)-1)
+		}
 		fv.Set(reflect.ValueOf(NewLatitude(s)))
 		out.elems = []uint64{uint64(uint32(s))}
 		return out
 	case types.Lng:
-		s := vI32()
-		vAssume(s != 0x7FFFFFFF)
+		s := int32(-2000 - sindex)
+		if choice {
+			s = vI32()
+			vAssume(s != 0x7FFFFFFF)
+		}
 		fv.Set(reflect.ValueOf(NewLongitude(s)))
 		out.elems = []uint64{uint64(uint32(s))}
 		return out
 	}
 	nondetElem := func() uint64 {
 		var v uint64
+		if !choice {
+			// all-fields mode: structure is the subject, values are fixed
+			// (every field is symbolic in its own instance)
+			return uint64(1 + sindex%100)
+		}
 		switch bt.Size() {
 		case 1:
 			v = uint64(vByte())
@@ -107,8 +131,11 @@ func vSetField(msgv reflect.Value, gmn MesgNum, sindex int, choice bool) vSet {
 		}
 		bs := make([]byte, n)
 		for i := range bs {
-			bs[i] = vByte()
-			vAssume(bs[i] >= 0x20 && bs[i] < 0x7F)
+			bs[i] = 'a' + byte(i)
+			if choice {
+				bs[i] = vByte()
+				vAssume(bs[i] >= 0x20 && bs[i] < 0x7F)
+			}
 		}
 		out.str = string(bs)
 		fv.SetString(out.str)
